@@ -143,7 +143,8 @@ def check_watson(R, monitor, w, opts, where):
         return
     nrm = np.linalg.norm(mode, axis=-1)
     dev = float(np.abs(nrm - 1).max())
-    R.check(monitor, dev <= 1e-10, 'domain/watson/mode-norm', f'{where}: |mode| deviates from 1 by {dev:.3e}', prop='C09', dev=dev)
+    R.check(monitor, dev <= max(1e-10, 16 * float(np.finfo(mode.dtype).eps)), 'domain/watson/mode-norm',      # unit norm in the precision the mode is stored in
+            f'{where}: |mode| deviates from 1 by {dev:.3e}', prop='C09', dev=dev)
     mx = opts.get('max_concentration', 500)
     R.check(monitor, bool((kappa >= 0).all() and (kappa <= mx * (1 + 1e-12)).all()), 'domain/watson/concentration-range',
             f'{where}: concentration {kappa.min()}..{kappa.max()} outside [0,{mx}]', prop='C09')
@@ -158,7 +159,8 @@ def check_vmf(R, monitor, v, opts, where):
     if (~nz).any():
         R.count('C09:vmf zero resultant', int((~nz).sum()))
     dev = float(np.abs(nrm[nz] - 1).max()) if nz.any() else 0.0
-    R.check(monitor, dev <= 1e-10, 'domain/vmf/mean-norm', f'{where}: |mean| deviates from 1 by {dev:.3e}', prop='C09', dev=dev)
+    R.check(monitor, dev <= max(1e-10, 16 * float(np.finfo(mean.dtype).eps) if mean.dtype.kind == 'f' else 1e-10), 'domain/vmf/mean-norm',
+            f'{where}: |mean| deviates from 1 by {dev:.3e}', prop='C09', dev=dev)
     lo, hi = opts.get('min_concentration', 1e-10), opts.get('max_concentration', 500)
     R.check(monitor, bool((kappa >= lo).all() and (kappa <= hi).all()), 'domain/vmf/concentration-range',
             f'{where}: concentration {kappa.min()}..{kappa.max()} outside [{lo},{hi}]', prop='C09')
